@@ -267,3 +267,13 @@ def inlined_fn(crate, path, depth=2):
     g["body"] = body
     g["inlined_helpers"] = hits[0]
     return g
+
+
+def param_by_type(f, substr, default=None):
+    """name of the first parameter of a HIR fn whose type contains substr (parameters are found by what they are, not by how they are called)"""
+    for p_, t in zip(f.get("params", []), f.get("inputs", [])):
+        if substr in t:
+            b = pat_binds(p_)
+            if b:
+                return b[0]
+    return default
